@@ -341,6 +341,42 @@ func (w *world) syncRun(a simrt.Action) {
 			break
 		}
 	}
+	// ---- and every stored block is justified: the commit the node saved with it carries valid precommits for
+	// exactly that block from more than two thirds of the voting power in force at that height
+	for h := int64(1); h <= got && h <= H && len(out.Violations) == 0; h++ {
+		out.Evals["C13.justified"]++
+		vals := w.valHist[h-1]
+		if h == 1 || vals == nil {
+			vals = map[string]int64{}
+			for _, gv := range w.env.Genesis.Validators {
+				vals[string(gv.PubKey.Address())] = gv.Amount
+			}
+		}
+		var total, signed int64
+		for _, p := range vals {
+			total += p
+		}
+		c := inc.Store.LoadSeenCommit(h)
+		meta := inc.Store.LoadBlockMeta(h)
+		seen := map[string]bool{}
+		if c != nil && meta != nil {
+			id := types.BlockID{Hash: meta.Hash, PartsHeader: meta.PartsHeader}
+			for _, pc := range c.Precommits {
+				if pc == nil || pc.Height != h || pc.Type != types.VoteTypePrecommit || !pc.BlockID.Equals(id) || seen[string(pc.ValidatorAddress)] {
+					continue
+				}
+				k := w.keyOf(pc.ValidatorAddress)
+				if k == nil || !k.PubKey().VerifyBytes(types.SignBytes(fullnode.ChainID, pc), pc.Signature) {
+					continue
+				}
+				seen[string(pc.ValidatorAddress)] = true
+				signed += vals[string(pc.ValidatorAddress)]
+			}
+		}
+		if 3*signed <= 2*total {
+			w.viol("C13", "stored-without-justification", fmt.Sprintf("%v", w.tamperAt(reactors, h+1)), "the syncing node stored block %d with a commit that carries valid precommits for it from %d of %d voting power (peers served height %d as %v)", h, signed, total, h+1, w.tamperAt(reactors, h+1))
+		}
+	}
 	if got > H {
 		w.viol("C13", "stored-beyond-source", "height", "the syncing node is at height %d, the source chain has %d blocks", got, H)
 	}
